@@ -85,7 +85,7 @@ Print Assumptions C20_list_total.
    C20_oracle_sound, or the oracle has already rejected it.  For request cases c20_check compares the observed
    outcome class, allocation, list answer, handler emissions, health and progress with what the model predicts;
    C20_oracle_sound then rests on C20_handle_p_no_panic (the model never predicts a panic).  KSeq is a
-   model-validation case (oracle constantly None); KCancel carries the signature of finding C20-F1. *)
+   model-validation case (oracle constantly None). *)
 Theorem C20_validb_sound : forall gn t c, c20_validb gn t c = true -> c20_valid gn t c.
 Proof. exact c20_validb_sound. Qed.
 Print Assumptions C20_validb_sound.
@@ -95,21 +95,12 @@ Theorem C20_covered_scope : forall gn t c,
 Proof. exact c20_covered_scope. Qed.
 Print Assumptions C20_covered_scope.
 
-(* Finding C20-F1 (open).  Full-strength statement: the etcd watch server answers every watch with exactly one
-   Canceled response.  The faithful model refutes it: a watch that the client cancels gets two (one from the stream
-   loop on the WatchCancelRequest, one when the watch goroutine ends); without a client cancel it gets one.  The
-   duplicate is what makes etcd clientv3 v3.5.2 panic (`close of closed channel`) inside a follower's etcd proxy. *)
-Definition C20_watch_cancel_once_full_statement : Prop := forall cc, watch_cancel_responses true cc = 1.
-Theorem C20_watch_cancel_once_refuted : exists cc, 1 < watch_cancel_responses true cc.
-Proof. exact watch_cancel_once_refuted. Qed.
-Print Assumptions C20_watch_cancel_once_refuted.
-Theorem C20_watch_cancel_once_except_F1 : forall cc, cc = false -> watch_cancel_responses true cc = 1.
-Proof. exact watch_cancel_once_except_client_cancel. Qed.
-Print Assumptions C20_watch_cancel_once_except_F1.
-Theorem C20_cancel_oracle_signature : forall gn t cc n,
-  c20_check t (KCancel cc n) = true -> c20_oracle gn t (KCancel cc n) = if cc then Some 1 else None.
-Proof. exact c20_cancel_oracle_signature. Qed.
-Print Assumptions C20_cancel_oracle_signature.
+(* C20-F1 (fixed in /repo): the etcd watch server answers every pure watch with exactly one Canceled response,
+   whether the client cancels it or its stream ends; a cancel request for an unknown id gets none.  (Before the fix a
+   client-cancelled watch got two, and the duplicate made etcd clientv3 v3.5.2 panic inside a follower's proxy.) *)
+Theorem C20_watch_cancel_once : forall cc, watch_cancel_responses true cc = 1.
+Proof. exact watch_cancel_once. Qed.
+Print Assumptions C20_watch_cancel_once.
 
 (* The watch-liveness probe and the slow-client scenario are the image of two theorems of C05's model of the
    watcher hub (Model/WatchSys.v), cited here: a subscriber whose buffer was found full is closed and unregistered
@@ -216,6 +207,13 @@ Example C20_partial_ops_can_panic :
   is_create_unguarded [] = PPanic /\ is_create_p [] [] [] = PVal false /\
   list_exec_presized 4611686018427387904 5 = PPanic /\ list_exec 4611686018427387904 5 = PVal (5%Z, false) /\
   slice_to 3 7 = PPanic /\ list_exec 2 9 = PVal (2%Z, true) /\ make_cap (-1) = PPanic.
+Proof. vm_compute. repeat split; reflexivity. Qed.
+(* regression witness of C20-F1: the observation the unrepaired server produced (two Canceled responses for a
+   client-cancelled watch; a response to a cancel of an unknown id) disagrees with the model and fails the oracle *)
+Example C20_F1_regression :
+  c20_check [] (KCancel true 2) = false /\ c20_oracle None [] (KCancel true 2) = Some 0 /\
+  c20_check [] (KCancel true 1) = true /\ c20_oracle None [] (KCancel false 1) = None /\
+  c20_oracle None [] (KCancelUnknown 1 true) = Some 0 /\ c20_check [] (KCancelUnknown 0 true) = true.
 Proof. vm_compute. repeat split; reflexivity. Qed.
 Example C20_limit_examples :
   list_limit max_int64 = Unlimited /\ list_limit (max_int64 - 1) = Limited max_int64 /\
